@@ -12,6 +12,7 @@ import UnifexModel.Driver.Entries.AnyObj
 import UnifexModel.Driver.Entries.Ctx
 import UnifexModel.Driver.Entries.SpawnFuture
 import UnifexModel.Driver.Entries.Coro
+import UnifexModel.Driver.Entries.Mutex
 
 namespace Unifex.Driver
 
@@ -29,6 +30,10 @@ def table : List ModelEntries :=
   , Entries.ctxEntries
   , Entries.spawnfuture
   , Entries.coroEntries
+  , Entries.mutexv1
+  , Entries.mutexv2
+  , Entries.mutexv2fix
+  , Entries.alist
   ]
 
 def lookup (m c : String) : Option Entry :=
